@@ -299,22 +299,27 @@ def modeSpecLess (o : Oracle) (sets : List SortSet) (items : List NV) : Mode →
   | .date => fun a b => dateSpec o sets (items.map (·.name)) a.name b.name
   | .value => valueLess
 
-/-- Hypothesis under which the `ByContextual` closure is a function of the pair: every key is in
-one and the same name table, or no key is in any table. -/
+/-- Hypothesis under which the `ByContextual` closure is a function of the pair: every key infers
+the same thing – all keys belong to one and the same name table, or no key is in any table. -/
 def ctxUniform (o : Oracle) (sets : List SortSet) (keys : List Key) : Bool :=
-  sets.any (fun set => keys.all (fun k => inferSortSetByValue sets o.lower k == some set
-      && (set.get (o.lower k)).isSome))
-  || keys.all (fun k => (inferSortSetByValue sets o.lower k).isNone)
+  match keys with
+  | [] => true
+  | k0 :: _ =>
+    keys.all (fun k => inferSortSetByValue sets o.lower k == inferSortSetByValue sets o.lower k0)
 
 /-- Hypothesis under which the `ByDate(ByContextual())` closure is a function of the pair: all keys
 have one and the same layout and parse with it, or no key has a layout and `ctxUniform` holds. -/
 def dateUniform (o : Oracle) (sets : List SortSet) (keys : List Key) : Bool :=
-  (match keys with
-   | [] => true
-   | k0 :: _ =>
-     match o.dfmt k0 with
-     | some f => keys.all (fun k => o.dfmt k == some f && (o.dparse f k).isSome)
-     | none => false)
-  || (keys.all (fun k => (o.dfmt k).isNone) && ctxUniform o sets keys)
+  match keys with
+  | [] => true
+  | k0 :: _ =>
+    match o.dfmt k0 with
+    | some f => keys.all (fun k => o.dfmt k == some f && (o.dparse f k).isSome)
+    | none => keys.all (fun k => (o.dfmt k).isNone) && ctxUniform o sets keys
+
+def modeUniform (o : Oracle) (sets : List SortSet) : Mode → List Key → Bool
+  | .contextual, keys => ctxUniform o sets keys
+  | .date, keys => dateUniform o sets keys
+  | _, _ => true
 
 end Rare.C13
